@@ -18,14 +18,17 @@
  *   VF_FAULT_MODE   fail  : the K-th write returns -1/errno, nothing is written
  *                   short : the K-th write really writes half of its bytes and returns
  *                           that count; the next write on the path returns -1/errno
+ *                   once  : only the K-th write returns -1/errno (nothing written); every later
+ *                           write on the path succeeds again (a transient error: quota freed, EIO
+ *                           on one block) -- the data of the K-th call is lost all the same
  *   VF_FAULT_CLOSE  1: the close()/fclose() of the path really closes the file but
  *                   reports -1/EOF with errno (a deferred write-back error)
  *   VF_FAULT_OPEN   1: opening the path for writing fails with errno (EACCES, EROFS, ...);
  *                   stands for read-only files/directories, which cannot be produced with
  *                   permission bits when the checks run as root
  *
- * A failed write is persistent: every later write on the path fails the same way
- * (a full device stays full).
+ * In modes fail and short a failed write is persistent: every later write on the path fails the
+ * same way (a full device stays full).
  *
  * Log lines (one write(2) each, so lines of concurrent processes do not mix):
  *   OPEN <path> <fd>
@@ -64,6 +67,7 @@ static char target[PATH_MAX];
 static long fault_k;
 static int fault_errno = ENOSPC;
 static int mode_short;
+static int mode_once;             /* only the K-th write fails */
 static int fault_close;
 static int fault_open;
 
@@ -152,6 +156,7 @@ static void init(void) {
   fault_errno = parse_errno(getenv("VF_FAULT_ERRNO"));
   p = getenv("VF_FAULT_MODE");
   mode_short = (p && strcmp(p, "short") == 0);
+  mode_once = (p && strcmp(p, "once") == 0);
   p = getenv("VF_FAULT_CLOSE");
   fault_close = (p && *p == '1');
   p = getenv("VF_FAULT_OPEN");
@@ -328,7 +333,7 @@ static int decide(int fd, long *callno) {
   if (failing[fd]) return 1;
   if (fault_k > 0 && n == fault_k) {
     if (mode_short) { failing[fd] = 1; return 2; }
-    failing[fd] = 1;
+    if (!mode_once) failing[fd] = 1;
     return 1;
   }
   return 0;
